@@ -9,3 +9,4 @@ import SJ.Props.TypedFaultEq
 #print axioms SJ.Props.C13.c13_buffers_utf8
 #print axioms SJ.Props.TypedFaultEq.c13_typed_fault_eq
 #print axioms SJ.Props.TypedFaultEq.c13_typed_fault_io
+#print axioms SJ.Props.C13.c13_into_io_error
